@@ -31,7 +31,18 @@ def record(tier, own):
     return ch.rec
 
 
+def model_check(chk, tier):
+    """L1: every mirrored operation of IIndexAlg refines the dense-array contract on all small receivers"""
+    cfg = "MC_IIndexAlg.cfg" if tier == "thorough" else "MC_IIndexAlg_quick.cfg"
+    res = core.run_tlc("MC_IIndexAlg.tla", cfg, timeout=3000)
+    chk.add_tlc("L1 %s (IIndexAlg refines IIndex)" % cfg, res)
+    if res.rc != 0:
+        chk.violation("L1:IIndexAlg:" + ",".join(res.violated), res.out[-2500:], {"leg": "L1", "cfg": cfg})
+
+
 def run_shared(chk, tier, own):
+    if own in ("C06", "C07", "C15"):
+        model_check(chk, tier)
     rec = record(tier, own)
     judge(chk, rec.events, rec.meta, own)
 
